@@ -10,6 +10,8 @@ From MV Require Import Lib.Bytes Lib.Dec Lib.Seg Model.CodecParams Model.HeaderK
 From MV Require Gen.ProtoConsts Gen.CodecSrc.
 (* the comparison functions used by the correspondence shards: imported so that they are rebuilt with this file *)
 From MV Require Model.BoltCheck Model.XCheck.
+(* ownership of the pooled frame copies (names qualified: Model.BufOwn.run ...) *)
+From MV Require Model.BufOwn Proofs.BufOwn.
 Import ListNotations.
 Open Scope N_scope.
 
@@ -95,8 +97,9 @@ Proof. vm_compute. reflexivity. Qed.
    framing code around them satisfies the statements.  The repaired spots are read from the source. ===== *)
 Theorem c08_codec_src_repaired :
   MV.Gen.CodecSrc.dubbo_cmp_int = true /\ MV.Gen.CodecSrc.thrift_len_has_prefix = true /\ MV.Gen.CodecSrc.thrift_copies_frame = true /\
-  MV.Gen.CodecSrc.tars_reader_in_frame = true /\ MV.Gen.CodecSrc.tars_stype_in_frame = true.
-Proof. exact (conj eq_refl (conj eq_refl (conj eq_refl (conj eq_refl eq_refl)))). Qed.
+  MV.Gen.CodecSrc.tars_reader_in_frame = true /\ MV.Gen.CodecSrc.tars_stype_in_frame = true /\
+  MV.Gen.CodecSrc.decode_keeps_frame_copy = true /\ MV.Gen.CodecSrc.ctx_reset_puts_once = true.
+Proof. exact (conj eq_refl (conj eq_refl (conj eq_refl (conj eq_refl (conj eq_refl (conj eq_refl eq_refl)))))). Qed.
 
 (* dubbo: decodeFrame computes the frame length as HeaderLen + DataLen in uint32; with 4 GiB or more buffered the
    sum can wrap, hence the bound vlen v < 2^32 (a Go integer width, written into the model) *)
@@ -218,3 +221,33 @@ Theorem c08_header_end_test_is_int : MV.Gen.CodecSrc.hdr_end_u32 = false.
 Proof. exact eq_refl. Qed.
 Theorem c08_header_end_u32_panics : fst (hdr_decode_sw true true [255;255;255;253; 1; 2; 3; 4]) = HPanic.
 Proof. exact hdr_decode_u32_panics. Qed.
+
+(* ===== CONTAINED ALSO THROUGH SHARED POOL STATE.  bolt / boltv2 Decode keeps the copy of a frame in an IoBuffer taken from
+   the process-wide pool and records it in the stream's buffer context; the context puts it back when the stream ends
+   (Model/BufOwn.v: the pool of mosn.io/pkg/buffer with its reference counts; GetIoBuffer may re-issue ANY pooled object:
+   the chooser ch is universally quantified).  With the decode paths of the tree (source switch decode_keeps_frame_copy:
+   nothing on a decode path gives a buffer back; ctx_reset_puts_once: the context puts each recorded buffer once), for
+   EVERY schedule of decodes - with and without error - and stream ends over any number of connections:
+   no two live streams ever refer to the same buffer, no buffer a live stream refers to is in the pool where another
+   connection could take it, no put is a duplicate; and once all streams have ended every buffer ever made is back in the
+   pool exactly once, unreferenced (each take is matched by exactly one put). ===== *)
+Theorem c08_frame_buffer_ownership :
+  (forall ch evs, Model.BufOwn.exclusive (Model.BufOwn.run (negb decode_keeps_frame_copy) ch evs)) /\
+  (forall ch evs, let s := Model.BufOwn.run (negb decode_keeps_frame_copy) ch evs in
+     Model.BufOwn.held s = [] ->
+     NoDup (Model.BufOwn.free (Model.BufOwn.pl s)) /\ Model.BufOwn.dup (Model.BufOwn.pl s) = 0%nat /\
+     forall x, (x < Model.BufOwn.fresh (Model.BufOwn.pl s))%nat ->
+       In x (Model.BufOwn.free (Model.BufOwn.pl s)) /\ Model.BufOwn.cnt (Model.BufOwn.pl s) x = Z0).
+Proof. exact (conj Proofs.BufOwn.own_exclusive Proofs.BufOwn.own_balanced). Qed.
+Print Assumptions c08_frame_buffer_ownership.
+
+(* the excluded shape: the error path of Decode releases the frame copy itself while the context keeps referring to it.
+   Schedule: A decodes a frame with a broken header block, B decodes a valid frame (the pool re-issues the object put
+   last), A's stream ends, C decodes: B and C refer to the SAME buffer - B is forwarded with C's bytes - and the pool's
+   duplicate check never fires; it fires only when nobody took the buffer in between *)
+Theorem c08_early_release_refuted :
+  (let s := Model.BufOwn.run true Proofs.BufOwn.lifo
+              [Model.BufOwn.Dec 0 true; Model.BufOwn.Dec 1 false; Model.BufOwn.End 0; Model.BufOwn.Dec 2 false] in
+   Model.BufOwn.held s = [(2, 0); (1, 0)]%nat /\ ~ Model.BufOwn.exclusive s /\ Model.BufOwn.dup (Model.BufOwn.pl s) = 0%nat) /\
+  Model.BufOwn.dup (Model.BufOwn.pl (Model.BufOwn.run true Proofs.BufOwn.lifo [Model.BufOwn.Dec 0 true; Model.BufOwn.End 0])) = 1%nat.
+Proof. exact (conj Proofs.BufOwn.own_early_release_refuted Proofs.BufOwn.own_early_release_immediate). Qed.
